@@ -251,6 +251,15 @@ pub fn gen(tier: &str, seed: u64, out: &mut dyn FnMut(Value)) {
     for c in ["\u{e9}", "$\u{e9}", "$a and \u{e9}", "1 of $\u{e9}", "\u{a0}$a", "$a\u{2003}and $b"] {
         out(json!({"op": "parse_cond", "s": c, "tag": "non-ASCII condition", "nt": true}));
     }
+    // conditions and match strings made of nothing but blanks (and other nearly empty texts): an error, never a panic
+    for c in ["", " ", "  ", "\t", "\n", " \t\n ", "\r", "\u{a0}", "()", "( )", " ( ) ", "not", "not ", " $a", "$a ", " $a ", "$", "$ ", "( $a", "$a )", "and", " and ", "of", "1 of", "of them", "them"] {
+        out(json!({"op": "parse_cond", "s": c, "tag": "nearly empty condition", "nt": true}));
+        out(match_case(c, "nearly empty match string"));
+        let t = format!("---\nname: r\nmatches:\n  $a: .x == '1'\ncondition: {}\n", crate::doc::yq(c));
+        out(json!({"op": "load_text", "rules": t, "tag": "nearly empty condition", "nt": true}));
+        let t = format!("---\nname: r\nmatches:\n  $a: {}\ncondition: $a\n", crate::doc::yq(c));
+        out(json!({"op": "load_text", "rules": t, "tag": "nearly empty match string", "nt": true}));
+    }
     // field paths (public `XPath::parse`): random strings over a wide alphabet
     let n = if thorough { 250000 } else { 20000 };
     for _ in 0..n {
